@@ -309,27 +309,38 @@ class bicgstabl {
                 // Symmetrize MZa
                 for (int i = 0; i <= L; ++i) {
                     for (int j = i+1; j <= L; ++j) {
-                        MZa(i, j) = MZa(j, i) = math::adjoint(MZa(j, i));
+                        // MZa(j, i) = (R[j], R[i]) = R_i^H R_j is the (i, j)
+                        // entry of the (Hermitian) Gram matrix.
+                        coef_type g = MZa(j, i);
+                        MZa(i, j) = g;
+                        MZa(j, i) = math::adjoint(g);
                     }
                 }
 
                 std::copy(MZa.data(), MZa.data() + MZa.size(), MZb.data());
 
+                // The right-hand sides of the normal equations are the
+                // columns R^H R[0] and R^H R[L] of the Gram matrix
+                // (qr.solve() copies the right-hand side before it writes
+                // the solution, so both may share storage).
                 if (prm.convex || L == 1) {
                     Y0[0] = -one;
+                    for(int i = 1; i <= L; ++i) Y0[i] = MZb(i, 0);
 
                     qr.solve(L, L, MZa.stride(0), MZa.stride(1),
-                            &MZa(1, 1), &MZb(0, 1), &Y0[1]);
+                            &MZa(1, 1), &Y0[1], &Y0[1]);
                 } else {
                     Y0[0] = -one;
                     Y0[L] = zero;
+                    for(int i = 1; i < L; ++i) Y0[i] = MZb(i, 0);
                     qr.solve(L-1, L-1, MZa.stride(0), MZa.stride(1),
-                            &MZa(1, 1), &MZb(0, 1), &Y0[1]);
+                            &MZa(1, 1), &Y0[1], &Y0[1]);
 
                     YL[0] = zero;
                     YL[L] = -one;
+                    for(int i = 1; i < L; ++i) YL[i] = MZb(i, L);
                     qr.solve(L-1, L-1, MZa.stride(0), MZa.stride(1),
-                            &MZa(1, 1), &MZb(L, 1), &YL[1], /*computed=*/true);
+                            &MZa(1, 1), &YL[1], &YL[1], /*computed=*/true);
 
                     coef_type dot0 = zero;
                     coef_type dot1 = zero;
@@ -344,9 +355,9 @@ class bicgstabl {
                             sL += M * YL[j];
                         }
 
-                        dot0 += Y0[i] * s0;
-                        dotA += YL[i] * s0;
-                        dot1 += YL[i] * sL;
+                        dot0 += math::adjoint(Y0[i]) * s0;
+                        dotA += math::adjoint(YL[i]) * s0;
+                        dot1 += math::adjoint(YL[i]) * sL;
                     }
 
                     scalar_type kappa0 = sqrt(std::abs(std::real(dot0)));
